@@ -34,12 +34,17 @@ EXTENDS Naturals, Integers, Sequences, FiniteSets, TLC
 CONSTANTS Kinds, NH, NObj,
           Max,        \* largest counter value (UINTPTR_MAX, scaled; values above Max \div 2 are "MAX - k")
           MaxExtra,   \* bound on plain-pointer references per object taken one by one
+          MaxTries,   \* bound on consecutive rejected replies through one detached handle
           AsFound
 
 VARIABLES kind, holds, copyh, hascopy, extra, defer, made,   \* Tier 1
           cnt, alive,                                         \* Tier 2
+          snd,        \* Tier 2, reply contexts: the send callback is still set (ctx->reply.send); a metatype
+                      \* unref that leaves other references clears it, after that every reply counts as delivered
+          tries,      \* rejected reply attempts on the current detached handle of o (bounded by MaxTries):
+                      \* makes "failed, handle kept, try again" a history the exploration walks through
           obs
-vars == <<kind, holds, copyh, hascopy, extra, defer, made, cnt, alive, obs>>
+vars == <<kind, holds, copyh, hascopy, extra, defer, made, cnt, alive, snd, tries, obs>>
 
 Handles == 1..NH
 Objs    == 1..NObj
@@ -70,16 +75,20 @@ HRefs(o) == HRefsOf(holds, copyh, hascopy, o)
 Refs(o)  == HRefs(o) + extra[o] + defer[o]
 
 (* Tier 2: counter machine  m = [cnt, alive, gone] *)
-M0 == [cnt |-> cnt, alive |-> alive, gone |-> <<>>]
+M0 == [cnt |-> cnt, alive |-> alive, snd |-> snd, gone |-> <<>>]
 CanRaise(m, o) == Sharable(kind) /\ m.alive[o] /\ m.cnt[o] # 0 /\ m.cnt[o] # Max
 MRaise(m, o)   == [m EXCEPT !.cnt[o] = @ + 1]
-MLower(m, o)   == IF o = 0 THEN m
+MLowerD(m, o)  == IF o = 0 THEN m                       \* release that is not a metatype unref (detached handle)
                   ELSE IF m.cnt[o] <= 1 \/ ~Sharable(kind)
                   THEN [m EXCEPT !.cnt[o] = 0, !.alive[o] = FALSE, !.gone = Append(@, o)]
                   ELSE [m EXCEPT !.cnt[o] = @ - 1]
+MLower(m, o)   == IF o = 0 THEN m                       \* unref through the object's interface
+                  ELSE IF m.cnt[o] <= 1 \/ ~Sharable(kind)
+                  THEN [m EXCEPT !.cnt[o] = 0, !.alive[o] = FALSE, !.gone = Append(@, o)]
+                  ELSE [m EXCEPT !.cnt[o] = @ - 1, !.snd[o] = IF kind = "reply" THEN FALSE ELSE @]
 MTryRaise(m, o) == IF o # 0 /\ CanRaise(m, o) THEN MRaise(m, o) ELSE m
 
-SetM(m) == cnt' = m.cnt /\ alive' = m.alive
+SetM(m) == cnt' = m.cnt /\ alive' = m.alive /\ snd' = m.snd
 
 (* counter as the driver reports it: k for small values, Max-k mapped by the driver *)
 Seen(o, c, a) == IF CntSeen(kind) /\ a[o] THEN c[o] ELSE -1
@@ -105,8 +114,10 @@ Answer(a, arg, ret, gone, val) ==
                               THEN 0 ELSE -1]]   \* nothing refers to anything: nothing may stay allocated
 
 Tier1Same == UNCHANGED <<holds, copyh, hascopy, extra, defer, made>>
-Same      == Tier1Same /\ UNCHANGED <<cnt, alive>>
-Frame     == UNCHANGED kind
+NoTry     == UNCHANGED tries
+Same      == Tier1Same /\ UNCHANGED <<cnt, alive, snd>>
+FrameK    == UNCHANGED kind
+Frame     == FrameK /\ NoTry
 
 ---------------------------------------------------------------------------
 (* a new object, referred to by the empty handle h *)
@@ -115,7 +126,7 @@ Create(h) ==
   /\ LET o == made + 1 IN
        /\ made' = o
        /\ holds' = [holds EXCEPT ![h] = o]
-       /\ cnt' = [cnt EXCEPT ![o] = 1] /\ alive' = [alive EXCEPT ![o] = TRUE]
+       /\ cnt' = [cnt EXCEPT ![o] = 1] /\ alive' = [alive EXCEPT ![o] = TRUE] /\ snd' = [snd EXCEPT ![o] = TRUE]
   /\ UNCHANGED <<copyh, hascopy, extra, defer>> /\ Frame
   /\ Answer("create", [h |-> h], "ok", <<>>, -1)
 
@@ -124,7 +135,12 @@ Copy(h, g, via) ==
   LET t == holds[g]  o == holds[h]  arg == [h |-> h, g |-> g, via |-> via] IN
   /\ via \in CopyVias(kind) /\ (Construct(via) => o = 0) /\ Frame
   /\ IF t = o
-     THEN Same /\ Answer("copy", arg, "any", <<>>, -1)
+     THEN /\ Tier1Same /\ UNCHANGED <<cnt, alive>>
+          \* assigning the referent to itself through conversion is addref + unref: no reference moves,
+          \* but the unref is one that "leaves other references" (clears a reply context's send callback)
+          /\ snd' = IF o # 0 /\ kind = "reply" /\ via \in {"conv", "value", "valueptr"} /\ CanRaise(M0, o)
+                    THEN [snd EXCEPT ![o] = FALSE] ELSE snd
+          /\ Answer("copy", arg, "any", <<>>, -1)
      ELSE IF t # 0 /\ ~CanRaise(M0, t)
      THEN IF ClearsOnFail(via)
           THEN LET m == MLower(M0, o) IN
@@ -161,7 +177,7 @@ Detach(h) ==
   LET o == holds[h] IN
   /\ HasCxx(kind) /\ o # 0 /\ extra[o] < MaxExtra /\ Frame
   /\ holds' = [holds EXCEPT ![h] = 0] /\ extra' = [extra EXCEPT ![o] = @ + 1]
-  /\ UNCHANGED <<copyh, hascopy, defer, made, cnt, alive>>
+  /\ UNCHANGED <<copyh, hascopy, defer, made, cnt, alive, snd>>
   /\ Answer("detach", [h |-> h], "ok", <<>>, -1)
 
 (* reference<T>::set_instance(p): the handle takes over a plain-pointer reference *)
@@ -196,12 +212,29 @@ Defer(o) ==
           /\ UNCHANGED <<holds, copyh, hascopy, extra, made>>
           /\ Answer("defer", [o |-> o], "ok", <<>>, -1)
      ELSE Same /\ Answer("defer", [o |-> o], "refused", <<>>, -1)
-Undefer(o) ==
-  LET m == MLower(M0, o) IN
-  /\ kind = "reply" /\ o <= made /\ defer[o] > 0 /\ Frame
-  /\ defer' = [defer EXCEPT ![o] = @ - 1] /\ SetM(m)
-  /\ UNCHANGED <<holds, copyh, hascopy, extra, made>>
-  /\ Answer("undefer", [o |-> o], "ok", m.gone, -1)
+(* reply(msg) through a detached handle.  The transport either accepts or rejects the send (accept); *)
+(* an explicit reply (msg = 1) that is rejected keeps the handle -- and therefore its reference --   *)
+(* for a retry; every other outcome (accepted, final reply(0), nobody left to send to) consumes the  *)
+(* handle and gives its reference back exactly once.                                                *)
+Undefer(o, msg, accept) ==
+  LET arg  == [o |-> o, msg |-> msg, accept |-> accept]
+      kept == msg = 1 /\ accept = 0 /\ snd[o]
+      m    == MLowerD(M0, o) IN
+  /\ kind = "reply" /\ o <= made /\ defer[o] > 0 /\ FrameK
+  /\ IF kept
+     THEN /\ tries[o] < MaxTries
+          /\ tries' = [tries EXCEPT ![o] = @ + 1]
+          /\ Same /\ Answer("undefer", arg, "kept", <<>>, -1)
+     ELSE /\ tries' = [tries EXCEPT ![o] = 0]
+          /\ defer' = [defer EXCEPT ![o] = @ - 1] /\ SetM(m)
+          /\ UNCHANGED <<holds, copyh, hascopy, extra, made>>
+          /\ Answer("undefer", arg, "done", m.gone, -1)
+
+(* reply(msg) through the context itself: whatever the transport answers, no reference moves *)
+ReplyCtx(o, msg, accept) ==
+  /\ kind = "reply" /\ o <= made /\ alive[o] /\ Frame
+  /\ Same
+  /\ Answer("reply", [o |-> o, msg |-> msg, accept |-> accept], "any", <<>>, -1)
 
 (* write the counter directly: everything above the handles' share is held by the environment *)
 Poke(o, v) ==
@@ -209,7 +242,7 @@ Poke(o, v) ==
   /\ v >= HRefs(o) + defer[o] /\ v >= 1 /\ v <= Max
   /\ extra' = [extra EXCEPT ![o] = v - HRefs(o) - defer[o]]
   /\ cnt' = [cnt EXCEPT ![o] = v]
-  /\ UNCHANGED <<holds, copyh, hascopy, defer, made, alive>>
+  /\ UNCHANGED <<holds, copyh, hascopy, defer, made, alive, snd>>
   /\ Answer("poke", [o |-> o, v |-> v], "ok", <<>>, -1)
 
 (* array of references: element-wise copy of all handles (type traits init), and its release *)
@@ -244,7 +277,7 @@ Unshare(h, via) ==
           /\ LET n == made + 1  m == MLower(M0, o) IN
                /\ made' = n /\ holds' = [holds EXCEPT ![h] = n]
                /\ cnt' = [m.cnt EXCEPT ![n] = 1] /\ alive' = [m.alive EXCEPT ![n] = TRUE]
-          /\ UNCHANGED <<copyh, hascopy, extra, defer>>
+          /\ UNCHANGED <<copyh, hascopy, extra, defer, snd>>
           /\ Answer("unshare", arg, "ok", <<>>, -1)
      ELSE Same /\ Answer("unshare", arg, "ok", <<>>, -1)
 
@@ -255,23 +288,23 @@ Clone(h, g) ==
   /\ IF Clonable(kind)
      THEN LET n == made + 1 IN
           /\ made' = n /\ holds' = [holds EXCEPT ![g] = n]
-          /\ cnt' = [cnt EXCEPT ![n] = 1] /\ alive' = [alive EXCEPT ![n] = TRUE]
+          /\ cnt' = [cnt EXCEPT ![n] = 1] /\ alive' = [alive EXCEPT ![n] = TRUE] /\ snd' = [snd EXCEPT ![n] = TRUE]
           /\ UNCHANGED <<copyh, hascopy, extra, defer>>
           /\ Answer("clone", [h |-> h, g |-> g], "ok", <<>>, -1)
      ELSE Same /\ Answer("clone", [h |-> h, g |-> g], "refused", <<>>, -1)
 
 (* plain struct refcount: cnt[1] is the value; api = "c" | "cxx" (refcount::raise/lower) *)
 BareSet(v) ==
-  /\ kind = "bare" /\ Frame /\ Tier1Same /\ UNCHANGED alive
+  /\ kind = "bare" /\ Frame /\ Tier1Same /\ UNCHANGED <<alive, snd>>
   /\ cnt' = [cnt EXCEPT ![1] = v]
   /\ Answer("bareset", [v |-> v], "ok", <<>>, -1)
 BareRaise(api) ==
-  /\ kind = "bare" /\ Frame /\ Tier1Same /\ UNCHANGED alive
+  /\ kind = "bare" /\ Frame /\ Tier1Same /\ UNCHANGED <<alive, snd>>
   /\ IF cnt[1] # 0 /\ cnt[1] # Max
      THEN cnt' = [cnt EXCEPT ![1] = @ + 1] /\ Answer("bareraise", [api |-> api], "ok", <<>>, cnt[1] + 1)
      ELSE UNCHANGED cnt /\ Answer("bareraise", [api |-> api], "refused", <<>>, 0)
 BareLower(api) ==
-  /\ kind = "bare" /\ Frame /\ Tier1Same /\ UNCHANGED alive
+  /\ kind = "bare" /\ Frame /\ Tier1Same /\ UNCHANGED <<alive, snd>>
   /\ IF cnt[1] # 0
      THEN cnt' = [cnt EXCEPT ![1] = @ - 1] /\ Answer("barelower", [api |-> api], "ok", <<>>, cnt[1] - 1)
      ELSE UNCHANGED cnt /\ Answer("barelower", [api |-> api], "any", <<>>, -1)
@@ -283,6 +316,7 @@ InitKind(k) ==
   /\ holds = [h \in Handles |-> 0] /\ copyh = [h \in Handles |-> 0] /\ hascopy = FALSE
   /\ extra = [o \in Objs |-> 0] /\ defer = [o \in Objs |-> 0] /\ made = 0
   /\ cnt = [o \in Objs |-> IF k = "bare" /\ o = 1 THEN 1 ELSE 0] /\ alive = [o \in Objs |-> FALSE]
+  /\ snd = [o \in Objs |-> TRUE] /\ tries = [o \in Objs |-> 0]
   /\ obs = [a |-> "init", arg |-> [kind |-> k, nh |-> NH, nobj |-> NObj, max |-> Max],
             exp |-> [ret |-> "ok", href |-> [h \in Handles |-> 0], copy |-> [h \in Handles |-> 0],
                      alive |-> [o \in Objs |-> 0], gone |-> <<>>, cnt |-> [o \in Objs |-> -1],
@@ -298,7 +332,9 @@ Next ==
   \/ \E h \in Handles, g \in Handles : Move(h, g) \/ Clone(h, g)
   \/ \E h \in Handles, via \in {"vptr", "reserve"} : Unshare(h, via)
   \/ \E h \in Handles, o \in Objs : Adopt(h, o)
-  \/ \E o \in Objs : RawRef(o) \/ RawUnref(o) \/ Defer(o) \/ Undefer(o)
+  \/ \E o \in Objs : RawRef(o) \/ RawUnref(o) \/ Defer(o)
+  \/ \E o \in Objs, msg \in {0, 1}, accept \in {0, 1} : Undefer(o, msg, accept)
+  \/ \E o \in Objs, accept \in {0, 1} : ReplyCtx(o, 1, accept)
   \/ \E o \in Objs : \E v \in PokeVals(o) : Poke(o, v)
   \/ ArrCopy \/ ArrDrop
   \/ \E v \in {0, 1, 2, Max - 1, Max} : BareSet(v)
@@ -311,7 +347,7 @@ Spec == Init /\ [][Next]_vars
 TypeOK ==
   /\ kind \in Kinds /\ made \in 0..NObj
   /\ \A h \in Handles : holds[h] \in 0..made /\ copyh[h] \in 0..made
-  /\ \A o \in Objs : cnt[o] \in 0..Max /\ extra[o] \in 0..Max /\ defer[o] \in 0..MaxExtra
+  /\ \A o \in Objs : cnt[o] \in 0..Max /\ extra[o] \in 0..Max /\ defer[o] \in 0..MaxExtra /\ snd[o] \in BOOLEAN /\ tries[o] \in 0..MaxTries
 
 (* the object lives exactly as long as somebody refers to it *)
 AliveIffReferenced == kind # "bare" => \A o \in Objs : alive[o] <=> (o <= made /\ Refs(o) > 0)
@@ -324,7 +360,7 @@ ObsAgrees == /\ \A o \in Objs : obs.exp.alive[o] = Bit(alive[o])
              /\ \A o \in Objs : obs.exp.cnt[o] = Seen(o, cnt, alive)
 
 (* action properties *)
-RefusedUnchanged == [][obs'.exp.ret = "refused" => UNCHANGED <<holds, copyh, hascopy, extra, defer, made, cnt, alive>>]_vars
+RefusedUnchanged == [][obs'.exp.ret \in {"refused", "kept"} => UNCHANGED <<holds, copyh, hascopy, extra, defer, made, cnt, alive, snd>>]_vars
 DestroyedOnce    == [][\A o \in Objs : (alive[o] /\ ~alive'[o]) <=> (\E i \in 1..Len(obs'.exp.gone) : obs'.exp.gone[i] = o)]_vars
 NoResurrection   == [][\A o \in Objs : (o <= made /\ ~alive[o]) => ~alive'[o]]_vars
 ReplaceOnce      == [][(obs'.a = "copy" /\ obs'.exp.ret = "ok" /\ holds[obs'.arg.h] # holds[obs'.arg.g]) =>
